@@ -208,8 +208,12 @@ type vfEnt struct {
 	pfx  string
 }
 
-func vfSymEnt(name string) *vfEnt {
-	e := &vfEnt{ni: vfStrK(name+".ni", "ni"), kind: vfInt(name+".kind", 0, 4)}
+func vfSymEnt(name string, want bool) *vfEnt {
+	maxKind := 5 // responses may also carry an MPLS entry keyed by the enumerated label arm (kind 5)
+	if want {
+		maxKind = 4
+	}
+	e := &vfEnt{ni: vfStrK(name+".ni", "ni"), kind: vfInt(name+".kind", 0, maxKind)}
 	vfAssume(e.ni != "")
 	switch e.kind {
 	case 2:
@@ -217,8 +221,8 @@ func vfSymEnt(name string) *vfEnt {
 	case 3:
 		e.pfx = vfStrK(name+".pfx6", "prefix6")
 	case 4:
-		e.num = uint64(vfU32(name + ".label"))
-		vfAssume(e.num != 0)
+		e.num = uint64(vfU32(name + ".label")) // any label, including 0
+	case 5:
 	default:
 		e.num = vfU64(name + ".num")
 		vfAssume(e.num != 0)
@@ -239,6 +243,8 @@ func (e *vfEnt) aftEntry() *spb.AFTEntry {
 		a.Entry = &spb.AFTEntry_Ipv6{Ipv6: &aftpb.Afts_Ipv6EntryKey{Prefix: e.pfx, Ipv6Entry: &aftpb.Afts_Ipv6Entry{}}}
 	case 4:
 		a.Entry = &spb.AFTEntry_Mpls{Mpls: &aftpb.Afts_LabelEntryKey{Label: &aftpb.Afts_LabelEntryKey_LabelUint64{LabelUint64: e.num}, LabelEntry: &aftpb.Afts_LabelEntry{}}}
+	case 5:
+		a.Entry = &spb.AFTEntry_Mpls{Mpls: &aftpb.Afts_LabelEntryKey{Label: &aftpb.Afts_LabelEntryKey_LabelOpenconfigmplstypesmplslabelenum{}, LabelEntry: &aftpb.Afts_LabelEntry{}}}
 	}
 	return a
 }
@@ -264,11 +270,11 @@ func VfC17_getResponseHasEntries() {
 	resp := &spb.GetResponse{}
 	var es []*vfEnt
 	for i := 0; i < n; i++ {
-		e := vfSymEnt("e")
+		e := vfSymEnt("e", false)
 		es = append(es, e)
 		resp.Entry = append(resp.Entry, e.aftEntry())
 	}
-	w := vfSymEnt("want")
+	w := vfSymEnt("want", true)
 	failed := vfFails(func(t testing.TB) { GetResponseHasEntries(t, resp, w.want()) })
 	present := false
 	for _, e := range es {
